@@ -19,25 +19,104 @@ LEVEL = "fault_enumeration"
 UNASSIGNED = [0] + list(range(8, 20)) + list(range(22, 30)) + list(range(42, 50)) + list(range(54, 60)) + \
     list(range(67, 80)) + list(range(83, 90)) + list(range(101, 256))
 IDLE_METHOD_SPECIFIC = list(range(30, 42)) + list(range(60, 67))
-CANDIDATES = UNASSIGNED + IDLE_METHOD_SPECIFIC
+# Types the protocol assigns but that have no handler in ONE role once authenticated (a client has nothing to do with
+# SERVICE_REQUEST or USERAUTH_REQUEST, a server nothing with SERVICE_ACCEPT or USERAUTH_SUCCESS ...).  Which numbers
+# have a handler is a frozen reference (the dispatch of an authenticated, idle transport per role), NOT read from the
+# tree under test: a change that registers a handler in the wrong role must not switch its own test case off.
+HANDLED = {"client": {1, 2, 3, 4, 6, 7, 20, 21, 51, 52, 53, 60} | set(range(80, 83)) | set(range(90, 101)),
+           "server": {1, 2, 3, 4, 5, 7, 20, 21, 50, 61} | set(range(80, 83)) | set(range(90, 101))}
+ROLE_SPECIFIC = [5, 6, 50, 51, 52, 53]
+CANDIDATES = UNASSIGNED + IDLE_METHOD_SPECIFIC + ROLE_SPECIFIC
 BATCH = 8
 NBATCH = (len(CANDIDATES) + BATCH - 1) // BATCH
 BUDGET = {"quick": {"runs": NBATCH * 2 * 3, "wall": 50}, "thorough": {"runs": NBATCH * 2 * 200, "wall": 560}}
 EXHAUSTIVE = True
 RULE = ("Enumerated: every type number that RFC 4250-4256 leave unassigned (0, 8-19, 22-29, 42-49, 54-59, 67-79, "
-        "83-89, 101-255) or that is method-specific and idle outside an exchange (30-41, 60-66), and that is absent "
-        "from the victim's live dispatch tables, x both victim roles, in batches of %d per run with random payloads; "
+        "83-89, 101-255), that is method-specific and idle outside an exchange (30-41, 60-66) or that is assigned to the "
+        "OTHER role only (5, 6, 50-53), and that has no handler in the victim's role per a frozen reference of the dispatch, "
+        "x both victim roles, in batches of %d per run with random payloads; "
         "plus an UNIMPLEMENTED sent by the adversary in every run." % BATCH)
 COMPONENTS = {"real": ["victim Transport unmodified; adversary real Transport emitting extra raw messages through its own packetizer"],
               "simulated": ["socket", "clock", "scheduling", "entropy"], "oracle": ["wiretap sequence numbers"]}
-ASSUMPTIONS = ["'has no handler' is decided conservatively: RFC-unassigned/idle numbers that are also absent from the victim's dispatch tables"]
+ASSUMPTIONS = ["'has no handler in the current role and state' is decided by a frozen reference of the dispatch of an authenticated idle "
+               "transport per role (taken from the unchanged tree and recorded in the check), not by the tables of the tree under test"]
 
 
 def sim_kw(seed):
     return {"max_steps": 2_000_000, "max_time": 3600.0}
 
 
+def rekey_window(sim):
+    """The unknown messages arrive after the victim has sent its own KEXINIT for a re-key and before the peer's KEXINIT
+    (latency makes the window): state 'exchange requested, nothing expected yet'.  Same oracle; the exchange must
+    also complete."""
+    sim.p_switch = (0.02, 0.2)[sim.choose(2)]
+    victim_role = ("server", "client")[sim.choose(2)]
+    lat = (0.1, 0.3)[sim.choose(2)]
+    link = Link(sim, latency=(lat, lat))
+    plog = []
+    # the adversary does not look at the UNIMPLEMENTED replies (a paramiko peer in the middle of an exchange would
+    # abort on them, which is that peer's business, not the victim's)
+    akey = "client_pk" if victim_role == "server" else "server_pk"
+    aside0 = "c" if victim_role == "server" else "s"
+    pkw = {akey: ssh.byzantine_packetizer(aside0, plog, filter_in=lambda pk, ptype, payload: ptype == 3)}
+    p = ssh.tapped_pair(sim, link=link, plog=plog, **pkw)
+    p.plog = plog
+    p.start(timeout=60)
+    p.wait_server()
+    p.auth_password()
+    ch = p.tc.open_session(timeout=30)
+    sch = p.ts.accept(30)
+    ch.settimeout(30); sch.settimeout(30)
+    victim, adv = (p.ts, p.tc) if victim_role == "server" else (p.tc, p.ts)
+    vside, aside = ("s", "c") if victim_role == "server" else ("c", "s")
+    adir = 0 if aside == "c" else 1
+    pool = list(range(30, 42)) + [0, 8, 45, 59, 70, 150, 255] + [t for t in ROLE_SPECIFIC if t not in HANDLED[victim_role]]
+    types = [pool[sim.choose(len(pool))] for _ in range(1 + sim.choose(4))]
+    desc = {"victim": victim_role, "types": types, "state": "victim sent KEXINIT, peer's KEXINIT not yet received", "latency": lat}
+    res = {}
+
+    def rk():
+        try:
+            victim.renegotiate_keys()
+            res["rk"] = "ok"
+        except Exception as e:
+            res["rk"] = e
+    t = sim.spawn(rk, "rekey")
+    sim.sleep(lat * 0.1)
+    sent = []
+    for ty in types:
+        m = Message()
+        m.add_bytes(bytes([ty]) + sim.payload.randbytes((0, 4, 40)[sim.choose(3)]))
+        before = len(p.tap.dirs[adir].packets)
+        adv.packetizer.send_message(m)
+        sent.append((ty, p.tap.dirs[adir].packets[before].seqno))
+        sim.fault("unknown_type_sent_into_rekey_window")
+    sim.join_task(t, 60)
+    ssh.quiesce(sim, [link], (), settle=0.2, limit=10)
+    if res.get("rk") != "ok" or not victim.is_active():
+        raise Violation(("C12", "session-ended", "rekey-window", type(res.get("rk")).__name__),
+                        "victim %s: re-key did not complete after unknown types %s arrived in its window: %r / %r"
+                        % (victim_role, types, res.get("rk"), victim.get_exception()), desc)
+    replies = [struct.unpack(">I", e[5][1:5])[0] for e in p.plog
+               if e[2] == vside and e[3] == "tx" and e[4] == 3 and len(e[5]) >= 5]
+    want = [s for _, s in sent]
+    if replies != want:
+        missing = [ty for ty, s in sent if s not in replies]
+        kind = "missing" if len(replies) < len(want) else ("extra" if len(replies) > len(want) else "wrong-seqno")
+        raise Violation(("C12", "unimplemented-replies-" + kind, "rekey-window"),
+                        "sent unknown types %s with seqnos %s into the victim's re-key window; UNIMPLEMENTED replies carried %s "
+                        "(unanswered types: %s)" % (types, want, replies, missing), desc)
+    if not ssh.echo_round(sim, ch, sch, 100, 100):
+        raise Violation(("C12", "session-not-usable-afterwards", "rekey-window"), "echo failed afterwards", desc)
+    sim.probe("unknown_types_answered_in_rekey_window", len(sent))
+    p.close()
+    return {"sample": desc, "case_key": "rekey-window|%s|%s" % (victim_role, types), "nontrivial": True, "counts": ["rekey-window"]}
+
+
 def scenario(sim):
+    if sim.seed % 6 == 5:
+        return rekey_window(sim)
     sim.p_switch = (0.02, 0.2)[sim.choose(2)]
     i = sim.seed
     victim_role = ("server", "client")[i % 2]
@@ -56,9 +135,12 @@ def scenario(sim):
     victim, adv = (p.ts, p.tc) if victim_role == "server" else (p.tc, p.ts)
     vside, aside = ("s", "c") if victim_role == "server" else ("c", "s")
     adir = 0 if aside == "c" else 1
-    live = set(victim._handler_table) | set(victim._channel_handler_table)
+    live = set(HANDLED[victim_role])
+    actual = set(victim._handler_table) | set(victim._channel_handler_table) | {1, 2, 3, 4}
     if victim.auth_handler is not None:
-        live |= set(victim.auth_handler._handler_table)
+        actual |= set(victim.auth_handler._handler_table)
+    if actual != live:
+        sim.probe("dispatch_tables_differ_from_reference")
     # some numbers are sent more than once in the same session
     types = list(types) + [types[sim.choose(len(types))] for _ in range(sim.choose(3))]
     desc = {"victim": victim_role, "types": types, "strict": strict}
